@@ -192,12 +192,19 @@ fn run(args: &Args, rep: &mut Report) {
                     if !go(&format!("{a};{b};{c}"), &mut acc) {
                         return acc;
                     }
+                    if tier == rt::Tier::Thorough {
+                        for d in 0..=110u32 {
+                            if !go(&format!("{a};{b};{c};{d}"), &mut acc) {
+                                return acc;
+                            }
+                        }
+                    }
                 }
             }
         }
         acc
     });
-    rep.add("exhaustive-lists", true, "all lists of 1..3 codes over 0..=110", accs);
+    rep.add("exhaustive-lists", true, if tier == rt::Tier::Thorough { "all lists of 1..4 codes over 0..=110" } else { "all lists of 1..3 codes over 0..=110" }, accs);
 
     // extended-colour forms in every position of short lists
     let forms: Vec<String> = {
@@ -258,9 +265,9 @@ fn run(args: &Args, rep: &mut Report) {
         Err(m) => Verdict { result: Err(m), nontrivial: None },
     };
     rep.add("random-lists", false, "well-formed lists of 1..40 codes with leading zeros and extended colours",
-        prop_par("random-lists", args.seed, tier.pick(60_000, 1_000_000), arb_list, body, |s| json!(s)));
+        prop_par("random-lists", args.seed, tier.pick(60_000, 10_000_000), arb_list, body, |s| json!(s)));
     rep.add("malformed", false, "lists with empty fields, signs, spaces, > 255, huge numbers, non-ASCII digits, trailing ';'",
-        prop_par("malformed", args.seed, tier.pick(60_000, 1_000_000), arb_malformed, body, |s| json!(s)));
+        prop_par("malformed", args.seed, tier.pick(60_000, 10_000_000), arb_malformed, body, |s| json!(s)));
     rep.add("arbitrary-unicode", false, "arbitrary strings",
         prop_par("arbitrary-unicode", args.seed, tier.pick(30_000, 300_000), || prop_oneof![".{0,10}", "[0-9;+ -]{0,12}", "[0-9]{1,4}(;[0-9]{0,4}){0,6}"], body, |s| json!(s)));
 }
